@@ -211,6 +211,32 @@ def pick_options(L, rng, workdirs, args, index, allowed=None):
             optclass = '--home-fallback+env'
     elif optclass == 'fallback-env-only':
         env_extra['TRASH_ENABLE_HOME_FALLBACK'] = '1'
+    # semantically neutral decorations: long forms, bundled short options,
+    # the flags trash-put ignores for rm compatibility,
+    # message-only environment switches
+    dr = rng.random()
+    if dr < 0.30:
+        longs = {'-f': '--force', '-i': '--interactive', '-v': '--verbose',
+                 '-vv': '-v'}
+        bundle = {'-f': ['-rf', '-fr', '-df', '-Rf', '-fv'],
+                  '-i': ['-ri', '-id', '-iv'],
+                  '-v': ['-rv', '-vd'], '-vv': ['-vrv', '-vvd']}
+        kind = rng.choice(['long', 'bundle', 'ignored', 'ignored', 'env'])
+        if kind == 'long' and opts and opts[0] in longs:
+            opts[0] = longs[opts[0]]
+            if opts[0] == '-v':
+                opts.insert(0, '--verbose')
+        elif kind == 'bundle' and opts and opts[0] in bundle:
+            opts[0] = rng.choice(bundle[opts[0]])
+        elif kind == 'ignored':
+            extra = rng.choice([['-r'], ['-R'], ['-d'], ['--recursive'],
+                                ['--directory'], ['-rd'], ['-r', '-d']])
+            if rng.random() < 0.5:
+                opts = extra + opts
+            else:
+                opts = opts + extra
+        elif kind == 'env':
+            env_extra['TRASH_PUT_DISABLE_SHRINK'] = '1'
     return opts, stdin, env_extra, optclass
 
 
